@@ -101,6 +101,39 @@ Definition wrap_map (r : res (list (gval * gval))) : res gval :=
   | Err => Err | Panic => Panic
   end.
 
+(* elements of an array, entries of a map, given the parser P for the nested items *)
+Definition parse_elems (P : item -> res gval) : list item -> res (list gval) :=
+  fix elems (l : list item) : res (list gval) :=
+    match l with
+    | [] => Ok []
+    | x :: r => match P x, elems r with
+                | Ok v, Ok vs => Ok (v :: vs)
+                | Panic, _ | _, Panic => Panic
+                | _, _ => Err
+                end
+    end.
+
+Definition parse_entries (P : item -> res gval) : list (item * item) -> list gval -> res (list (gval * gval)) :=
+  fix entries (l : list (item * item)) (seen : list gval) : res (list (gval * gval)) :=
+    match l with
+    | [] => Ok []
+    | (k, v) :: r =>
+        match P k with
+        | Ok kv =>
+            if negb (hashable kv) then Err
+            else match P v with
+                 | Ok vv =>
+                     if existsb (key_eqb kv) seen then Err        (* DupMapKeyEnforcedAPF *)
+                     else match entries r (kv :: seen) with
+                          | Ok es => Ok ((kv, vv) :: es)
+                          | Err => Err | Panic => Panic
+                          end
+                 | Err => Err | Panic => Panic
+                 end
+        | Err => Err | Panic => Panic
+        end
+    end.
+
 (* strip = skipSelfDescribedTag: true at the top level, for array elements, map keys and map values *)
 Fixpoint parse (strip : bool) (it : item) {struct it} : res gval :=
   match it with
@@ -122,36 +155,8 @@ Fixpoint parse (strip : bool) (it : item) {struct it} : res gval :=
       if (n =? 20)%N then Ok (VBool false) else if (n =? 21)%N then Ok (VBool true)
       else if (n =? 22)%N || (n =? 23)%N then Ok VNil else Ok (VSimple (Z.of_N n))
   | IFloat ai bits => Ok (VFloat (Z.of_N (float_bits64 ai bits)))
-  | IArr l =>
-      wrap_arr ((fix elems (l : list item) : res (list gval) :=
-         match l with
-         | [] => Ok []
-         | x :: r => match parse true x, elems r with
-                     | Ok v, Ok vs => Ok (v :: vs)
-                     | Panic, _ | _, Panic => Panic
-                     | _, _ => Err
-                     end
-         end) l)
-  | IMap l =>
-      wrap_map ((fix entries (l : list (item * item)) (seen : list gval) : res (list (gval * gval)) :=
-         match l with
-         | [] => Ok []
-         | (k, v) :: r =>
-             match parse true k with
-             | Ok kv =>
-                 if negb (hashable kv) then Err
-                 else match parse true v with
-                      | Ok vv =>
-                          if existsb (key_eqb kv) seen then Err        (* DupMapKeyEnforcedAPF *)
-                          else match entries r (kv :: seen) with
-                               | Ok es => Ok ((kv, vv) :: es)
-                               | Err => Err | Panic => Panic
-                               end
-                      | Err => Err | Panic => Panic
-                      end
-             | Err => Err | Panic => Panic
-             end
-         end) l [])
+  | IArr l => wrap_arr (parse_elems (parse true) l)
+  | IMap l => wrap_map (parse_entries (parse true) l [])
   end.
 
 (* key.UnmarshalCBOR(data, &v) with v of type any *)
@@ -182,6 +187,13 @@ Definition big_item (z : Z) : item :=
     let len := N.to_nat ((N.log2 n) / 8 + 1) in
     ITag (if z <? 0 then 3 else 2) (IBstr (be len n)).
 
+Fixpoint opt_all {A} (l : list (option A)) : option (list A) :=
+  match l with
+  | [] => Some []
+  | Some x :: r => match opt_all r with Some xs => Some (x :: xs) | None => None end
+  | None :: _ => None
+  end.
+
 (* None = a Go value the model does not encode (time.Time, other structs) *)
 Fixpoint item_of (v : gval) : option item :=
   match v with
@@ -191,21 +203,11 @@ Fixpoint item_of (v : gval) : option item :=
   | VFloat b => Some (float_item b)
   | VBytes b => Some (IBstr b)
   | VStr s => Some (ITstr s)
-  | VArr l =>
-      option_map IArr ((fix go (l : list gval) : option (list item) :=
-         match l with
-         | [] => Some []
-         | x :: r => match item_of x, go r with Some i, Some is => Some (i :: is) | _, _ => None end
-         end) l)
+  | VArr l => option_map IArr (opt_all (map item_of l))
   | VInts l => Some (IArr (map int_item l))
   | VOps (Some l) => Some (IArr (map int_item l))
   | VOps None => Some (ISimple 22)
-  | VMap m =>
-      option_map IMap ((fix go (m : list (label * gval)) : option (list (item * item)) :=
-         match m with
-         | [] => Some []
-         | (k, x) :: r => match item_of x, go r with Some i, Some is => Some ((label_item k, i) :: is) | _, _ => None end
-         end) m)
+  | VMap m => option_map IMap (opt_all (map (fun e => let '(k, x) := e in option_map (fun i => (label_item k, i)) (item_of x)) m))
   | VTag n x => match item_of x with Some i => Some (ITag (Z.to_N n) i) | None => None end
   | VSimple n => Some (ISimple (Z.to_N n))
   | VBig z => Some (big_item z)
